@@ -1,6 +1,119 @@
-(** C10 -- placeholder until Proofs/BdsProof.v is integrated *)
-From SQ Require Import Base Bds.
-Theorem C10_abs_diff_sym : forall a b, abs_diff a b = abs_diff b a.
-Proof. intros a b. unfold abs_diff. destruct (N.leb_spec a b), (N.leb_spec b a); lia. Qed.
-Check C10_abs_diff_sym : forall a b, abs_diff a b = abs_diff b a.
-Print Assumptions C10_abs_diff_sym.
+(** C10 -- Comm-B data are shown only when valid, advertised and correctly decoded. *)
+From SQ Require Import Base Bds Update Footprint Doc9871 BdsProof.
+Local Open Scope N_scope.
+
+(** with no -R and a recorded capability of 3 or less a DF20/21 reply changes no Comm-B derived field of the row (27 fields listed) *)
+Theorem C10_gate_closed : forall (obs : option (Q * Q)) (now : Z) (r : row) (m : list N) (df : N) (relaxed : bool) (r' : row), plane_update obs now r m df relaxed = Ok r' -> relaxed = false -> cap_ca r <= 3 -> df = 20 \/ df = 21 -> r_ais r' = r_ais r /\ threat r' = threat r /\ cap r' = cap r /\ selected_altitude r' = selected_altitude r /\ target_alt_source r' = target_alt_source r /\ baro_setting r' = baro_setting r /\ roll_angle r' = roll_angle r /\ track r' = track r /\ track_angle_rate r' = track_angle_rate r /\ grspeed r' = grspeed r /\ true_airspeed r' = true_airspeed r /\ bds50_t r' = bds50_t r /\ track_source r' = track_source r /\ track_t r' = track_t r /\ r_heading r' = r_heading r /\ indicated_airspeed r' = indicated_airspeed r /\ mach r' = mach r /\ vrate r' = vrate r /\ vrate_source r' = vrate_source r /\ heading_source r' = heading_source r /\ heading_t r' = heading_t r /\ temperature r' = temperature r /\ wind r' = wind r /\ humidity r' = humidity r /\ turbulence r' = turbulence r /\ pressure r' = pressure r /\ cap_ca r' = cap_ca r.
+Proof. exact gate_closed. Qed.
+Check C10_gate_closed : forall (obs : option (Q * Q)) (now : Z) (r : row) (m : list N) (df : N) (relaxed : bool) (r' : row), plane_update obs now r m df relaxed = Ok r' -> relaxed = false -> cap_ca r <= 3 -> df = 20 \/ df = 21 -> r_ais r' = r_ais r /\ threat r' = threat r /\ cap r' = cap r /\ selected_altitude r' = selected_altitude r /\ target_alt_source r' = target_alt_source r /\ baro_setting r' = baro_setting r /\ roll_angle r' = roll_angle r /\ track r' = track r /\ track_angle_rate r' = track_angle_rate r /\ grspeed r' = grspeed r /\ true_airspeed r' = true_airspeed r /\ bds50_t r' = bds50_t r /\ track_source r' = track_source r /\ track_t r' = track_t r /\ r_heading r' = r_heading r /\ indicated_airspeed r' = indicated_airspeed r /\ mach r' = mach r /\ vrate r' = vrate r /\ vrate_source r' = vrate_source r /\ heading_source r' = heading_source r /\ heading_t r' = heading_t r /\ temperature r' = temperature r /\ wind r' = wind r /\ humidity r' = humidity r /\ turbulence r' = turbulence r /\ pressure r' = pressure r /\ cap_ca r' = cap_ca r.
+Print Assumptions C10_gate_closed.
+
+(** conversely a changed Comm-B field means -R or a recorded capability above 3 *)
+Theorem C10_gate_open_needed : forall (obs : option (Q * Q)) (now : Z) (r : row) (m : list N) (df : N) (relaxed : bool) (r' : row) (f : fld), plane_update obs now r m df relaxed = Ok r' -> df = 20 \/ df = 21 -> memf f fp_mode_s = true -> ~ same f r r' -> relaxed = true \/ 3 < cap_ca r.
+Proof. exact gate_open_needs. Qed.
+Check C10_gate_open_needed : forall (obs : option (Q * Q)) (now : Z) (r : row) (m : list N) (df : N) (relaxed : bool) (r' : row) (f : fld), plane_update obs now r m df relaxed = Ok r' -> df = 20 \/ df = 21 -> memf f fp_mode_s = true -> ~ same f r r' -> relaxed = true \/ 3 < cap_ca r.
+Print Assumptions C10_gate_open_needed.
+
+(** without -R, a BDS 4,0 register that BDS 1,7 has not advertised changes none of its fields *)
+Theorem C10_advert_40 : forall (r : row) (m : list N) (r' : row), update_from_mode_s r m false = Ok r' -> c40 (cap r) = false -> selected_altitude r' = selected_altitude r /\ baro_setting r' = baro_setting r /\ target_alt_source r' = target_alt_source r.
+Proof. exact advert_40_strong. Qed.
+Check C10_advert_40 : forall (r : row) (m : list N) (r' : row), update_from_mode_s r m false = Ok r' -> c40 (cap r) = false -> selected_altitude r' = selected_altitude r /\ baro_setting r' = baro_setting r /\ target_alt_source r' = target_alt_source r.
+Print Assumptions C10_advert_40.
+
+(** likewise BDS 5,0 (roll, track rate, TAS, and track / ground speed stay) *)
+Theorem C10_advert_50 : forall (r : row) (m : list N) (r' : row), update_from_mode_s r m false = Ok r' -> c50 (cap r) = false -> roll_angle r' = roll_angle r /\ track_angle_rate r' = track_angle_rate r /\ true_airspeed r' = true_airspeed r /\ bds50_t r' = bds50_t r /\ track r' = track r /\ grspeed r' = grspeed r /\ track_source r' = track_source r /\ track_t r' = track_t r.
+Proof. exact advert_50_strong. Qed.
+Check C10_advert_50 : forall (r : row) (m : list N) (r' : row), update_from_mode_s r m false = Ok r' -> c50 (cap r) = false -> roll_angle r' = roll_angle r /\ track_angle_rate r' = track_angle_rate r /\ true_airspeed r' = true_airspeed r /\ bds50_t r' = bds50_t r /\ track r' = track r /\ grspeed r' = grspeed r /\ track_source r' = track_source r /\ track_t r' = track_t r.
+Print Assumptions C10_advert_50.
+
+(** likewise BDS 6,0 (heading, IAS, Mach, vertical rate stay) *)
+Theorem C10_advert_60 : forall (r : row) (m : list N) (r' : row), update_from_mode_s r m false = Ok r' -> c60 (cap r) = false -> r_heading r' = r_heading r /\ indicated_airspeed r' = indicated_airspeed r /\ mach r' = mach r /\ vrate r' = vrate r /\ vrate_source r' = vrate_source r /\ heading_source r' = heading_source r /\ heading_t r' = heading_t r.
+Proof. exact advert_60_strong. Qed.
+Check C10_advert_60 : forall (r : row) (m : list N) (r' : row), update_from_mode_s r m false = Ok r' -> c60 (cap r) = false -> r_heading r' = r_heading r /\ indicated_airspeed r' = indicated_airspeed r /\ mach r' = mach r /\ vrate r' = vrate r /\ vrate_source r' = vrate_source r /\ heading_source r' = heading_source r /\ heading_t r' = heading_t r.
+Print Assumptions C10_advert_60.
+
+(** the register inference is first-match in the fixed precedence 1,7 > 4,0 > 5,0 > 6,0 > 4,4 > 4,5: exactly one outcome happens, later registers only if the earlier tests failed or were not advertised *)
+Theorem C10_first_match : forall (r : row) (m : list N) (relaxed : bool) (r' : row), update_from_mode_s r m relaxed = Ok r' -> mode_s_outcome r m relaxed r'.
+Proof. exact update_from_mode_s_outcome. Qed.
+Check C10_first_match : forall (r : row) (m : list N) (relaxed : bool) (r' : row), update_from_mode_s r m relaxed = Ok r' -> mode_s_outcome r m relaxed r'.
+Print Assumptions C10_first_match.
+
+(** if the selected altitude changes then the MB field is a valid BDS 4,0 register (status bits 33,46,59 set, value fields non-zero, reserved bits 72-79 and 84-85 zero) and the new values are the Doc 9871 decodings *)
+Theorem C10_valid_40 : forall (r : row) (m : list N) (relaxed : bool) (r' : row), wf m -> Datatypes.length m = 28%nat -> update_from_mode_s r m relaxed = Ok r' -> selected_altitude r' <> selected_altitude r -> bds40_valid m /\ selected_altitude r' = Some (sel_alt_spec (field m 34 45)) /\ baro_setting r' = Some (baro_spec (field m 60 71)).
+Proof. exact valid_40_doc. Qed.
+Check C10_valid_40 : forall (r : row) (m : list N) (relaxed : bool) (r' : row), wf m -> Datatypes.length m = 28%nat -> update_from_mode_s r m relaxed = Ok r' -> selected_altitude r' <> selected_altitude r -> bds40_valid m /\ selected_altitude r' = Some (sel_alt_spec (field m 34 45)) /\ baro_setting r' = Some (baro_spec (field m 60 71)).
+Print Assumptions C10_valid_40.
+
+(** if the roll angle changes then the MB field is a valid BDS 5,0 register (all five status bits set, fields non-zero, plausible) and roll, track, ground speed, track rate and TAS are the Doc 9871 decodings *)
+Theorem C10_valid_50 : forall (r : row) (m : list N) (relaxed : bool) (r' : row), wf m -> Datatypes.length m = 28%nat -> update_from_mode_s r m relaxed = Ok r' -> roll_angle r' <> roll_angle r -> bds50_valid m /\ roll_angle r' = Some (roll_spec (bit_at m 34) (field m 35 43)) /\ track r' = Some (angle_spec (bit_at m 45) (field m 46 55)) /\ grspeed r' = Some (speed2_spec (field m 57 66)) /\ true_airspeed r' = Some (speed2_spec (field m 79 88)) /\ track_angle_rate r' = Some (tar_spec (bit_at m 68) (field m 69 77)).
+Proof. exact valid_50_doc. Qed.
+Check C10_valid_50 : forall (r : row) (m : list N) (relaxed : bool) (r' : row), wf m -> Datatypes.length m = 28%nat -> update_from_mode_s r m relaxed = Ok r' -> roll_angle r' <> roll_angle r -> bds50_valid m /\ roll_angle r' = Some (roll_spec (bit_at m 34) (field m 35 43)) /\ track r' = Some (angle_spec (bit_at m 45) (field m 46 55)) /\ grspeed r' = Some (speed2_spec (field m 57 66)) /\ true_airspeed r' = Some (speed2_spec (field m 79 88)) /\ track_angle_rate r' = Some (tar_spec (bit_at m 68) (field m 69 77)).
+Print Assumptions C10_valid_50.
+
+(** if the Mach number changes then the MB field is a valid BDS 6,0 register and heading, IAS, Mach and vertical rate are the Doc 9871 decodings *)
+Theorem C10_valid_60 : forall (r : row) (m : list N) (relaxed : bool) (r' : row), wf m -> Datatypes.length m = 28%nat -> update_from_mode_s r m relaxed = Ok r' -> mach r' <> mach r -> bds60_valid m /\ r_heading r' = Some (angle_spec (bit_at m 34) (field m 35 44)) /\ indicated_airspeed r' = Some (ias_spec (field m 46 55)) /\ mach r' = Some (mach_spec (field m 57 66)).
+Proof. exact valid_60_doc. Qed.
+Check C10_valid_60 : forall (r : row) (m : list N) (relaxed : bool) (r' : row), wf m -> Datatypes.length m = 28%nat -> update_from_mode_s r m relaxed = Ok r' -> mach r' <> mach r -> bds60_valid m /\ r_heading r' = Some (angle_spec (bit_at m 34) (field m 35 44)) /\ indicated_airspeed r' = Some (ias_spec (field m 46 55)) /\ mach r' = Some (mach_spec (field m 57 66)).
+Print Assumptions C10_valid_60.
+
+(** the BDS 4,0 test returns exactly the Doc 9871 record when the validity predicate holds and nothing otherwise (soundness and completeness) *)
+Theorem C10_register_40 : forall m : list N, wf m -> Datatypes.length m = 28%nat -> is_bds_4_0 m = Ok (if bds40_ok m then Some (bds40_doc m) else None).
+Proof. exact is_bds_4_0_char. Qed.
+Check C10_register_40 : forall m : list N, wf m -> Datatypes.length m = 28%nat -> is_bds_4_0 m = Ok (if bds40_ok m then Some (bds40_doc m) else None).
+Print Assumptions C10_register_40.
+
+(** the same for BDS 5,0 *)
+Theorem C10_register_50 : forall m : list N, wf m -> Datatypes.length m = 28%nat -> is_bds_5_0 m = Ok (if bds50_ok m then Some (bds50_doc m) else None).
+Proof. exact is_bds_5_0_char. Qed.
+Check C10_register_50 : forall m : list N, wf m -> Datatypes.length m = 28%nat -> is_bds_5_0 m = Ok (if bds50_ok m then Some (bds50_doc m) else None).
+Print Assumptions C10_register_50.
+
+(** the same for BDS 6,0 *)
+Theorem C10_register_60 : forall m : list N, wf m -> Datatypes.length m = 28%nat -> is_bds_6_0 m = Ok (if bds60_ok m then Some (bds60_doc m) else None).
+Proof. exact is_bds_6_0_char. Qed.
+Check C10_register_60 : forall m : list N, wf m -> Datatypes.length m = 28%nat -> is_bds_6_0 m = Ok (if bds60_ok m then Some (bds60_doc m) else None).
+Print Assumptions C10_register_60.
+
+(** what 'valid BDS 5,0' means: the five status bits, non-zero fields, |roll| <= 50, GS <= 600, TAS <= 500, |GS - TAS| < 200 *)
+Theorem C10_valid_50_meaning : forall m : list N, bds50_ok m = true <-> bds50_valid m.
+Proof. exact bds50_ok_iff. Qed.
+Check C10_valid_50_meaning : forall m : list N, bds50_ok m = true <-> bds50_valid m.
+Print Assumptions C10_valid_50_meaning.
+
+(** what 'valid BDS 6,0' means: the five status bits, non-zero fields, Mach <= 1, |rates| <= 6000 *)
+Theorem C10_valid_60_meaning : forall m : list N, bds60_ok m = true <-> bds60_valid m.
+Proof. exact bds60_ok_iff. Qed.
+Check C10_valid_60_meaning : forall m : list N, bds60_ok m = true <-> bds60_valid m.
+Print Assumptions C10_valid_60_meaning.
+
+(** what 'valid BDS 4,0' means: three status bits, non-zero fields, reserved bits zero *)
+Theorem C10_valid_40_meaning : forall m : list N, bds40_ok m = true <-> bds40_valid m.
+Proof. exact bds40_ok_iff. Qed.
+Check C10_valid_40_meaning : forall m : list N, bds40_ok m = true <-> bds40_valid m.
+Print Assumptions C10_valid_40_meaning.
+
+(** signed fields are two's complement and integer results are floors: the model's roll arithmetic equals floor((value - 512 sign) * 45 / 256) *)
+Theorem C10_roll_is_floor : forall s v : N, s = 0 \/ s = 1 -> (let x := (Z.of_N v * 45 ÷ 256)%Z in if s =? 0 then x else (x - 90)%Z) = roll_spec s v.
+Proof. exact roll_model. Qed.
+Check C10_roll_is_floor : forall s v : N, s = 0 \/ s = 1 -> (let x := (Z.of_N v * 45 ÷ 256)%Z in if s =? 0 then x else (x - 90)%Z) = roll_spec s v.
+Print Assumptions C10_roll_is_floor.
+
+(** completeness spelled out: a valid BDS 5,0 MB field is decoded as that register, for turns in either direction *)
+Theorem C10_complete_50 : forall m : list N, wf m -> Datatypes.length m = 28%nat -> bds50_valid m -> is_bds_5_0 m = Ok (Some (bds50_value m)).
+Proof. exact is_bds_5_0_complete. Qed.
+Check C10_complete_50 : forall m : list N, wf m -> Datatypes.length m = 28%nat -> bds50_valid m -> is_bds_5_0 m = Ok (Some (bds50_value m)).
+Print Assumptions C10_complete_50.
+
+(** and a valid BDS 6,0 one, for climbs and descents *)
+Theorem C10_complete_60 : forall m : list N, wf m -> Datatypes.length m = 28%nat -> bds60_valid m -> is_bds_6_0 m = Ok (Some (bds60_value m)).
+Proof. exact is_bds_6_0_complete. Qed.
+Check C10_complete_60 : forall m : list N, wf m -> Datatypes.length m = 28%nat -> bds60_valid m -> is_bds_6_0 m = Ok (Some (bds60_value m)).
+Print Assumptions C10_complete_60.
+
+(** non-vacuity: a published BDS 5,0 sample reply decodes to roll 2, track 114, GS 438, TAS 424 *)
+Theorem C10_example_50 : bds50_ok sample50 = true /\ bds50_doc sample50 = {| b50_roll := Some 2%Z; b50_track := Some 114; b50_tar := Some 0%Z; b50_gs := Some 438; b50_tas := Some 424 |} /\ is_bds_5_0 sample50 = Ok (Some (bds50_doc sample50)).
+Proof. exact sample50_ok. Qed.
+Check C10_example_50 : bds50_ok sample50 = true /\ bds50_doc sample50 = {| b50_roll := Some 2%Z; b50_track := Some 114; b50_tar := Some 0%Z; b50_gs := Some 438; b50_tas := Some 424 |} /\ is_bds_5_0 sample50 = Ok (Some (bds50_doc sample50)).
+Print Assumptions C10_example_50.
+
+
